@@ -1051,7 +1051,11 @@ func ReconcileStaging(repo gitstore.Storer, signCommit bool) error {
 			return err
 		}
 
-		return rsl.NewReferenceEntry(PolicyStagingRef, policyTip).Commit(repo, signCommit)
+		if err := rsl.NewReferenceEntry(PolicyStagingRef, policyTip).Commit(repo, signCommit); err != nil {
+			return repo.ResetDueToError(err, PolicyStagingRef, policyStagingTip)
+		}
+
+		return nil
 	}
 
 	// Diverged
@@ -1070,7 +1074,7 @@ func ReconcileStaging(repo gitstore.Storer, signCommit bool) error {
 		return err
 	}
 	if err := rsl.NewReferenceEntry(PolicyStagingRef, policyTip).Commit(repo, signCommit); err != nil {
-		return err
+		return repo.ResetDueToError(err, PolicyStagingRef, policyStagingTip)
 	}
 
 	// TODO: fix RSL entries for staging that are now orphaned
